@@ -313,6 +313,15 @@ pub fn run_check(replay: Option<Value>) -> i32 {
                 } else {
                     vec![]
                 };
+                // (and towards the time origin: from ∓1 to ∓0.001 in steps of 0.999/3.3 the closing step x + (xend - x) is longer
+                // than |xend| and misses xend by 8.7e-19 - the last abscissa is then not bitwise xend)
+                let mut far = far;
+                if si == 0 {
+                    let p0 = crate::problems::base(crate::problems::Base::Decay(-0.05));
+                    let p = if backward { crate::problems::reflect(&p0) } else { p0 };
+                    let (a, b) = if backward { (1.0, 0.001) } else { (-1.0, -0.001) };
+                    far.push((9usize, Scene { name: format!("{} (towards the origin: [{}, {}])", p.name, a, b), prob: p, x0: a, xend: b }, true));
+                }
                 std::iter::once((si, sc, false)).chain(again).chain(tenth).chain(far)
             }) {
                 let mut cfg = scene_cfg(*m, &sc, 1e-5);
@@ -324,6 +333,7 @@ pub fn run_check(replay: Option<Value>) -> i32 {
                     let parts = match si {
                         5 | 6 | 7 => 10.0,
                         8 => 5.0,
+                        9 => 3.3,
                         _ => 10.005,
                     };
                     cfg.first_step = Some((sc.xend - sc.x0) / parts);
